@@ -118,6 +118,13 @@ Print Assumptions C10_kernels_config_invariant.
    same basis whose penalty arrays denote the same matrix Q -- each in the layout of its own `lower`
    flag, i.e. banded_solver < 4 or = 4 -- and either path on either side, the calls are well formed
    and denote the SAME matrix B'WB + Q and right-hand side B'Wy (+ rhs_extra). *)
+(* every place where the package consults its optional dependencies is a known, modelled one: a new
+   flag-conditional branch anywhere in pybaselines (enumerated from the source on every run) breaks this *)
+From PB Require Import C10.Sites.
+Theorem C10_flag_sites : flag_sites = expected_flag_sites /\ jit_functions = expected_jit_functions.
+Proof. exact sites_ok. Qed.
+Print Assumptions C10_flag_sites.
+
 (* imported here, after the theorems above, because C07.Model re-uses names of C10.Model (call, den, ...) *)
 From PB Require Import C07.Model C07.Proofs C10.Btb C10.BeadsModel C10.BeadsProofs.
 Module M7 := PB.C07.Model.
